@@ -6,6 +6,7 @@ import (
 	"errors"
 	"fmt"
 	"math/bits"
+	"path/filepath"
 	"strings"
 )
 
@@ -71,7 +72,20 @@ func OpenFile(f string) (*Database, error) {
 	if err != nil {
 		return nil, err
 	}
-	return newDatabase(l, f+"-journal")
+	return newDatabase(l, journalName(f))
+}
+
+// SQLite names the rollback journal after the real database file: with
+// symbolic links resolved, and as an absolute path, so it doesn't depend on the
+// working directory at the time we look for it.
+func journalName(f string) string {
+	if real, err := filepath.EvalSymlinks(f); err == nil {
+		f = real
+	}
+	if abs, err := filepath.Abs(f); err == nil {
+		f = abs
+	}
+	return f + "-journal"
 }
 
 func newDatabase(l pager, journal string) (*Database, error) {
